@@ -283,6 +283,10 @@ def pag_recipe(draw, *, fonts=False, strategies=("plain", "page_by", "page_by_ne
             for _ in range(draw(st.integers(2, 8))):
                 if n:
                     shared[f"{draw(st.integers(0, n - 1))},{draw(st.integers(1, ndata - 1))}"] = draw(st.sampled_from(pool))
+    null_cells = None
+    if rel and n and draw(st.integers(0, 9)) < 5:
+        # missing values left of / between the wrapping cells of unequal-width tables
+        null_cells = {f"{i},{draw(st.integers(0, ndata - 1))}" for i in range(n) if draw(st.integers(0, 9)) < 4}
     subline = None
     if strat == "subline":
         if n and draw(st.integers(0, 9)) < 3:
@@ -305,7 +309,7 @@ def pag_recipe(draw, *, fonts=False, strategies=("plain", "page_by", "page_by_ne
                      new_page=new_page, pageby_row=pbr, pageby_header=pbh, header=header, footnote=footnote,
                      source=source, nrow=nrow, placements=pl, title=draw(st.booleans()),
                      tall_cols=[draw(st.integers(0, 2)) for _ in range(n)], group_first=draw(st.booleans()),
-                     rel_widths=rel, shared=shared, reverse_group_cols=(levels >= 2 and draw(st.integers(0, 9)) < 3),
+                     rel_widths=rel, shared=shared, null_cells=null_cells, reverse_group_cols=(levels >= 2 and draw(st.integers(0, 9)) < 3),
                      size_pattern=size_pattern,
                      tall_header=draw(st.integers(2, 3)) if (tall_headers and draw(st.integers(0, 9)) < 4) else 0,
                      tall_header_col=draw(st.integers(0, 3)), group_by_runs=gb_runs,
